@@ -1,7 +1,7 @@
 (* C07 — observer values move only at stabilise boundaries.  Statements about the engine model E. *)
 From stdpp Require Import base list option numbers.
 From Incr.Model Require Import Base Live Engine Api.
-From Incr.Proofs Require Import Pres FrameStatus FrameRead Reads.
+From Incr.Proofs Require Import Pres FrameStatus FrameRead Reads Poisoned.
 
 (* [read_result s o] is what try_get_value returns for observer o in state s.
    Any operation of the API other than stabilise — variable writes of all five kinds, node and bind
@@ -17,6 +17,17 @@ Theorem C07_reads_move_only_at_stabilise :
     obss s !! o = Some ob -> is_Some (nodes s !! o_observing ob) ->
     Forall (fun e => read_result e.2 o = read_result s o) (run fuel [op] st s).
 Proof. exact run_one_read_frame. Qed.
+
+(* the same over any sequence of operations between two stabilisations: however many writes, new nodes,
+   new observers, subscriptions and drops the program performs, in whatever order, the read of an observer
+   it does not itself disallow or drop is the one the last stabilise left *)
+Theorem C07_reads_constant_between_stabilises :
+  forall fuel ops st s o ob,
+    Forall (fun op => op <> OpStabilise) ops ->
+    Forall (fun op => expert_op op = false /\ op_target op <> Some o) ops ->
+    obss s !! o = Some ob -> is_Some (nodes s !! o_observing ob) ->
+    Forall (fun e => read_result e.2 o = read_result s o) (run fuel ops st s).
+Proof. exact run_nonstab_reads_frozen. Qed.
 
 (* a new observer returns NeverStabilised *)
 Theorem C07_new_observer_never_stabilised :
@@ -50,3 +61,4 @@ Print Assumptions C07_reads_move_only_at_stabilise.
 Print Assumptions C07_new_observer_never_stabilised.
 Print Assumptions C07_read_during_stabilise_is_refused.
 Print Assumptions C07_status_constant_during_propagation.
+Print Assumptions C07_reads_constant_between_stabilises.
